@@ -457,10 +457,24 @@ func runCrash(ctx *core.RunCtx) {
 			copy(b[pos:], []byte{0xff, 0xff, 0xff, 0xff, 0xff, 0xff, 0xff, []byte{0x7f, 0xff, 0x00, 0x3f}[g.Choose(4)]})
 			bad, ops = string(b), fmt.Sprintf("huge-length@%d", pos)
 		}
+		if g.Chance(1, 25) {
+			// a chunk made by hand: functions nested in one another through their constants, far deeper
+			// than any source could be (each level: empty source name, name, code, lines; one constant,
+			// which is a function)
+			n := []int{300, 5000, 200000}[g.Choose(3)]
+			if g.Chance(1, 24) {
+				n = 3000000 // 120 MB of input: rare
+			}
+			level := "\x00\x00\x00\x00\x00\x00\x00\x00" + "\x00\x00\x00\x00\x00\x00\x00\x00" + "\x00\x00\x00\x00\x00\x00\x00\x00" + "\x00\x00\x00\x00\x00\x00\x00\x00" + "\x01\x00\x00\x00\x00\x00\x00\x00" + "\x05"
+			bad, ops = "\x06\x00\x04\x05"+strings.Repeat(level, n), fmt.Sprintf("hand-made nesting of %d functions", n)
+		}
 		ctx.Sample = fmt.Sprintf("-- binary chunk of %d bytes, corruption: %s\n%s", len(dumped), ops, src)
 		ctx.Shape = core.HashString(bad)
 		ctx.Count("fault.binary-chunk corruption", 1)
 		lim = rt.RuntimeResources{Cpu: 2000000, Memory: []uint64{100000, 1000000}[g.Choose(2)] + uint64(g.Choose(997))}
+		if len(bad) > 50000 {
+			lim = rt.RuntimeResources{Cpu: 4000000000, Memory: 8000000000} // big enough not to stop the loading early
+		}
 		var ms0, ms1 goruntime.MemStats
 		goruntime.ReadMemStats(&ms0)
 		if ms0.HeapAlloc > 24<<20 {
